@@ -247,6 +247,28 @@ func mergeStringMaps(src, dest map[string]any) {
 	}
 }
 
+// mergeTypedMaps merges the (possibly nested) map src into the non-nil map dest.
+// Values already present in dest take precedence. Nested maps are never shared
+// between src and dest.
+func mergeTypedMaps(src, dest reflect.Value) {
+	iter := src.MapRange()
+	for iter.Next() {
+		key, srcElem := iter.Key(), iter.Value()
+		destElem := dest.MapIndex(key)
+		if srcElem.Kind() == reflect.Map {
+			if !destElem.IsValid() || destElem.IsNil() {
+				destElem = reflect.MakeMap(srcElem.Type())
+				dest.SetMapIndex(key, destElem)
+			}
+			mergeTypedMaps(srcElem, destElem)
+			continue
+		}
+		if !destElem.IsValid() {
+			dest.SetMapIndex(key, srcElem)
+		}
+	}
+}
+
 // mergeConfigs merges the values from c1 into c2.
 func mergeConfigs(ctx context.Context, src Config, dest *Config) {
 	log := zerolog.Ctx(ctx)
@@ -266,7 +288,13 @@ func mergeConfigs(ctx context.Context, src Config, dest *Config) {
 		if srcFieldValue.Kind() == reflect.Map {
 			srcMap, ok := srcFieldValue.Interface().(map[string]any)
 			if !ok {
-				log.Debug().Msg("field value is not `any`, skipping merge")
+				// Typed maps (e.g. replace-type) are merged key by key, too.
+				if srcFieldValue.Len() > 0 && destFieldValue.CanSet() {
+					if destFieldValue.IsNil() {
+						destFieldValue.Set(reflect.MakeMap(destFieldValue.Type()))
+					}
+					mergeTypedMaps(srcFieldValue, destFieldValue)
+				}
 				continue
 			}
 			destMap, ok := destFieldValue.Interface().(map[string]any)
